@@ -125,6 +125,10 @@ class BlockReduceFilter(Contract):
             red = rng.choice(["sum", "min", "mean", "median"])
             est = verde.BlockReduce(REDS[red][0], spacing=rng.choice([3.0, 5, (7, 3)]), center_coordinates=rng.random() < 0.7, drop_coords=rng.random() < 0.5, adjust=rng.choice(["spacing", "region"]))
             yield (est, coords, data), dict(weights=None)
+        # a sparse cloud: far fewer points than blocks, and more than 256 blocks (block labels beyond small integer types)
+        for npt, side in ((120, 20), (60, 17)):
+            est = verde.BlockReduce(REDS[rng.choice(["mean", "median", "sum"])][0], spacing=1.0, region=(0.0, float(side), 0.0, float(side)), center_coordinates=rng.random() < 0.5)
+            yield (est, (nrng.uniform(0, side, npt), nrng.uniform(0, side, npt)), nrng.uniform(-5, 5, npt)), dict(weights=None)
 
     tol = (1e-9, 1e-9)
 
